@@ -105,6 +105,7 @@ func vfIntDigits(base int) {
 }
 
 // Exact digits and sign for every integer type, no padding; one harness per base.
+//
 //verif:split 5
 //verif:backend int
 func Verif_C15_int_digits_dec() { vfIntDigits(10) }
@@ -117,6 +118,7 @@ func Verif_C15_int_digits_hex() { vfIntDigits(16) }
 func Verif_C15_int_digits_oct() { vfIntDigits(8) }
 
 // Padding: any padLen, small magnitudes; width clamp at 31, pad characters per base.
+//
 //verif:split 5
 //verif:backend int
 func Verif_C15_int_pad() {
@@ -300,6 +302,7 @@ func (o *vfOut) rep(c byte, n int) {
 // The whole format scanner: every format string of L bytes, fixed argument lists.
 // Inside the documented language the output must equal the reference; for every
 // format string whatsoever Fprintf must not panic.
+//
 //verif:split 6
 func Verif_C15_scan() {
 	L := zzverif.Param("fmtlen", 3, 4)
@@ -308,6 +311,7 @@ func Verif_C15_scan() {
 
 // Two adjacent directives, the first with a one-digit width: "%<digit><verb>%<verb>" with the digit and both verb
 // bytes symbolic (a width must not leak into the directive that follows it without literal text in between).
+//
 //verif:split 6
 func Verif_C15_scan_adjacent() {
 	raw := zzverif.Bytes("fmt", 5)
